@@ -113,6 +113,11 @@ static std::vector<Special> specials() {
         {"table-collection", "PVTO\n 10 20 1.1 1.5 60 1.08 1.7 /\n 40 80 1.25 1.1 150 1.22 1.2 /\n/\n"},
         {"table-collection-2-regions", "TABDIMS\n 1 2 /\nPVTO\n 10 20 1.1 1.5 60 1.08 1.7 /\n 40 80 1.25 1.1 150 1.22 1.2 /\n/\n 12 22 1.1 1.5 62 1.08 1.7 /\n 42 82 1.25 1.1 152 1.22 1.2 /\n/\n"},
         {"table-collection-pvtg-2-regions", "TABDIMS\n 1 2 /\nPVTG\n 20 0.0001 0.05 0.012 0 0.051 0.0121 /\n 80 0.0002 0.012 0.015 0 0.0125 0.0151 /\n/\n 22 0.0001 0.05 0.012 0 0.051 0.0121 /\n 82 0.0002 0.012 0.015 0 0.0125 0.0151 /\n/\n"},
+        {"table-collection-last-defaulted", "TABDIMS\n 1 2 /\nPVTO\n 10 20 1.1 1.5 60 1.08 1.7 /\n 40 80 1.25 1.1 150 1.22 1.2 /\n/\n/\n"},
+        {"table-collection-middle-defaulted", "TABDIMS\n 1 3 /\nPVTO\n 10 20 1.1 1.5 60 1.08 1.7 /\n/\n/\n 12 22 1.1 1.5 62 1.08 1.7 /\n/\n"},
+        {"table-collection-all-but-first-defaulted", "TABDIMS\n 1 3 /\nPVTG\n 20 0.0001 0.05 0.012 0 0.051 0.0121 /\n/\n/\n/\n"},
+        {"tables-last-region-defaulted", "TABDIMS\n 2 1 /\nSWOF\n 0.2 0 1 0\n 1 1 0 0 /\n/\n"},
+        {"pvdo-last-region-defaulted", "TABDIMS\n 1 2 /\nPVDO\n 10 1.1 1.5\n 100 1.05 1.6 /\n/\n"},
         {"tables-2-regions", "TABDIMS\n 2 1 /\nSWOF\n 0.2 0 1 0\n 1 1 0 0 /\n 0.25 0 1 0\n 1 1 0 0 /\n"},
         {"table-defaults", "SWOF\n 0.2 0 1 0\n 0.5 1* 1* 0\n 1 1 0 0 /\n"},
         {"dates", "DATES\n 1 JAN 2020 12:30:15 /\n 2 'FEB' 2021 /\n/\n"},
